@@ -346,12 +346,20 @@ func DeserializeData(s []byte, uncompress bool) ([]byte, CompressionFormat, erro
 		}
 		return data, compression, nil
 	case LZ4:
+		if len(cdata) < 4 {
+			return nil, 0, fmt.Errorf("LZ4 serialization of %d bytes is too short to hold the uncompressed size", len(cdata))
+		}
 		origSize := binary.LittleEndian.Uint32(cdata[0:4])
 		var data []byte
 		if origSize == 0 { // support legacy native Go lz4 stored values
 			data = make([]byte, len(cdata)-4)
 			copy(data, cdata[4:])
 		} else {
+			// An LZ4 block cannot expand by more than a factor of 255, so don't trust
+			// (and allocate) a stored size that the compressed bytes cannot produce.
+			if uint64(origSize) > 255*uint64(len(cdata)-4) {
+				return nil, 0, fmt.Errorf("LZ4 stored uncompressed size %d is impossible for %d compressed bytes", origSize, len(cdata)-4)
+			}
 			data = make([]byte, int(origSize))
 			if err := lz4.Uncompress(cdata[4:], data); err != nil {
 				return nil, 0, err
@@ -365,7 +373,10 @@ func DeserializeData(s []byte, uncompress bool) ([]byte, CompressionFormat, erro
 			return nil, 0, err
 		}
 
-		data2 := imgdata.(*image.Gray)
+		data2, ok := imgdata.(*image.Gray)
+		if !ok {
+			return nil, 0, fmt.Errorf("expected grayscale JPEG in deserialization, got %T", imgdata)
+		}
 		return data2.Pix, compression, nil
 	case Gzip:
 		b := bytes.NewBuffer(cdata)
